@@ -21,7 +21,7 @@ def runCase (c : Case) : IO Unit := do
   | "logseq" => runLogSeq c emit
   | "dac" => runDac c emit
   | "pool" => runPool c emit
-  | "codes" | "bits" | "repair" => runCheckStreams c emit
+  | "codes" | "bits" | "repair" | "rpdac" => runCheckStreams c emit
   | _ => emit 1 s!"ERR unknown-stream {c.stream}"
 
 partial def loop (h : IO.FS.Stream) (cur : Option Case) : IO Unit := do
